@@ -521,7 +521,7 @@ def shard_expr(task):
     return ev, fails
 
 
-def tasks_expr(ctx, off_stmt):
+def tasks_expr(ctx, off_stmt, failing):
     disabled, fails, counts = run_probes("expr")
     for f in fails:
         ctx.fail(f)
@@ -537,7 +537,7 @@ def tasks_expr(ctx, off_stmt):
     # full-grammar campaign: failures on a case containing a construct with failing probes are counted, not reported
     if disabled:
         allf = sorted(set(pygram.ALL_FLAGS) | FLAG_OFF_POSITIONS)
-        tasks += [("expr", (ctx.shard_seed(i, "exprfull"), ctx.pick(80, 1500), allf, sorted(FINDINGS), every, False)) for i in range(16)]
+        tasks += [("expr", (ctx.shard_seed(i, "exprfull"), ctx.pick(80, 1500), allf, sorted(failing), every, False)) for i in range(16)]
     return tasks
 
 
@@ -749,19 +749,19 @@ def shard_block(task):
             need = check_block(c.src, c.envspec, c.outs)
             ev.label("b:free-names=%d" % min(len(need), 6))
         except Failure as f:
-            hit = []
-            if feats & PARAM_FEATS:
-                hit.append("C19-function-params")
-            if "param_default" in feats:
-                hit.append("C19-function-default-names")
-            if "comp_in_fn" in in_fn:
-                hit.append("C19-comprehension-in-function-names")
+            hit = []  # most specific construct first
             if "late_local" in c.feats:
                 hit.append("C19-function-local-bound-later")
-            if kinds & {"ListComp", "SetComp", "DictComp", "GeneratorExp"}:
-                hit.append("C19-comprehension-var-leaks")
             if "KeyError" in c.src:
                 hit.append("C19-strict-lookup-shadowed-keyerror")
+            if "ir" in c.envspec:
+                hit.append("C19-comprehension-var-leaks")
+            if "comp_in_fn" in in_fn:
+                hit.append("C19-comprehension-in-function-names")
+            if "param_default" in feats:
+                hit.append("C19-function-default-names")
+            if feats & PARAM_FEATS:
+                hit.append("C19-function-params")
             f.info["kid"] = next((h for h in hit if h in known_ids), None)
             if f.info["kid"] is None:
                 f = minimize_block(f)
@@ -777,7 +777,7 @@ STMT_KINDS = {"Assign", "AugAssign", "For", "While", "If", "Try", "With", "Impor
               "NamedExpr", "Expr", "Pass"}
 
 
-def tasks_block(ctx, off_expr):
+def tasks_block(ctx, off_expr, failing):
     disabled, fails, counts = run_probes("block")
     for f in fails:
         ctx.fail(f)
@@ -791,7 +791,7 @@ def tasks_block(ctx, off_expr):
     tasks = [("block", (ctx.shard_seed(i, "block"), n, flags, [], i < 2)) for i in range(16)]
     if off:
         tasks += [("block", (ctx.shard_seed(i, "blockfull"), ctx.pick(24, 300), sorted(pygram.ALL_FLAGS - {"escape_names"}),
-                             sorted(FINDINGS), False)) for i in range(16)]
+                             sorted(failing), False)) for i in range(16)]
     return tasks, off
 
 
@@ -1162,7 +1162,7 @@ PROBE_RUNNERS["margin"] = _probe_margin
 MARGIN_FEATURE_TO_ID = {fl: fid_ for fid_, f in FINDINGS.items() for fl in f["flags"] if fl.startswith("m_")}
 
 
-def tasks_margin(ctx):
+def tasks_margin(ctx, failing):
     disabled, fails, counts = run_probes("margin")
     for f in fails:
         ctx.fail(f)
@@ -1173,7 +1173,7 @@ def tasks_margin(ctx):
     n = ctx.pick(160, 1900)
     tasks = [("margin", (ctx.shard_seed(i, "margin"), n, flags, [], i < 2)) for i in range(16)]
     if disabled:
-        tasks += [("margin", (ctx.shard_seed(i, "marginfull"), ctx.pick(32, 300), list(MARGIN_FLAGS), sorted(FINDINGS), False))
+        tasks += [("margin", (ctx.shard_seed(i, "marginfull"), ctx.pick(32, 300), list(MARGIN_FLAGS), sorted(failing), False))
                   for i in range(16)]
     return tasks
 
@@ -1192,21 +1192,25 @@ def run(ctx):
     warnings.simplefilter("ignore")
     part = getattr(ctx, "part", None)
     tasks = []
+    # the probe lists are cheap: run them all first so that every campaign knows which findings are open
+    probes = {p: run_probes(p) for p in ("expr", "block", "margin")}
+    failing = set()
+    for p in probes:
+        failing |= set(probes[p][2])
     off_stmt = set()
     if part in (None, "block"):
-        d_expr, _, _ = run_probes("expr") if part == "block" else (set(), None, None)
-        tb, off_stmt = tasks_block(ctx, d_expr)
+        tb, off_stmt = tasks_block(ctx, probes["expr"][0], failing)
         tasks += tb
     if part in (None, "expr"):
-        tasks += tasks_expr(ctx, off_stmt)
+        tasks += tasks_expr(ctx, off_stmt, failing)
     if part in (None, "margin"):
-        tasks += tasks_margin(ctx)
+        tasks += tasks_margin(ctx, failing)
     # one pool for all shards, the slow kinds first
     order = {"block": 0, "expr": 1, "margin": 2}
     tasks.sort(key=lambda t: (order[t[0]], -t[1][1]))
     ctx.pmap(shard_any, tasks)
     ctx.ev.notes["labels_all"] = dict(ctx.ev.labels)
-    ctx.ev.notes["findings_with_failing_probes"] = sorted(k for k in ctx.ev.excluded_known)
+    ctx.ev.notes["findings_with_failing_probes"] = sorted(failing)
 
 
 def classify(f):
